@@ -47,7 +47,7 @@ CHECKS = {
              text="Generated descriptions (shell, phony, mkdir, symlink and archive tools; virtual outputs at any position; symbolic-link outputs) and edit histories (sources, outputs, description edits incl. nodes moving between inputs and outputs, sources becoming produced nodes, archive member lists), serial and -j4, each build a new process of the ASan/UBSan binary; after every successful build every reachable output must equal the predicted clean-build bytes.",
              note="Commands are one deterministic helper whose hash is recomputed in Python; mtimes assigned explicitly; failing builds only counted.", ref="4/C08"),
  "C09": dict(cat="exploration", tech="runtime monitor: null-build run log, single-attribute description pairs (re-run iff relevant), Command::getSignature() observed through the delegate",
-             text="Null builds over the C08 workload must run nothing; pairs differing in exactly one of 20 attributes must re-run the command iff the attribute is signature-relevant; signatures of such pairs and of 17 structural near-collisions must differ and be stable across processes.",
+             text="Null builds over the C08 workload must run nothing; pairs differing in exactly one of 22 attributes must re-run the command iff the attribute is signature-relevant; signatures of such pairs and of 17 structural near-collisions must differ and be stable across processes.",
              note="Downstream re-runs after a legitimate re-run are allowed; 64-bit chance collisions ignored.", ref="4/C09"),
  "C10": dict(cat="exploration", tech="runtime monitor with injected command failures (exit/signal/late failure/missing input/unwritable output), oracles from run log + delegate events + predicted contents",
              text="Failing build, unrepaired rebuild, repair, rebuild - through the CLI (cancel on first failure) and a keep-going BuildSystemFrontend client, serial and -j4: no consumer of a failing command starts, exit status non-zero, the failing command is retried, and after repair it re-executes and outputs converge to the predicted clean state.",
@@ -56,13 +56,13 @@ CHECKS = {
              text="A command's undeclared reads (hostile path spellings, absolute/relative to working-directory, existing or missing) are reported through all three deps styles; each discovered path is then edited/deleted/created in turn and the command must re-run (and not re-run on the following null build); malformed files must fail and be retried; generated dependency files must round-trip byte for byte through both parsers.",
              note="NUL/TAB/CR/LF and a leading ':' cannot be expressed by the Makefile format and are not generated.", ref="4/C11"),
  "C12": dict(cat="exploration", tech="runtime monitor: tree edits vs whether the consuming command appears in its own run log, three-valued expectation from the property text",
-             text="Every spelling of a directory-tree / directory-structure input, with and without exclusion patterns, random trees with symlinks and a symlink loop, 17 edit kinds at every depth (incl. entries added while the directory's own mtime is restored), new process per build: must re-run / must not re-run / not judged.",
+             text="Every spelling of a directory-tree / directory-structure input (relative and absolute node names, must-scan-after-paths), with and without exclusion patterns, random trees with symlinks and a symlink loop, 17 edit kinds at every depth (incl. entries added while the directory's own mtime is restored), new process per build: must re-run / must not re-run / not judged.",
              note="Directory nodes are named '<path>/'; pattern semantics = libc fnmatch; replace-by-rename under structure nodes and additions/removals of excluded names under tree nodes are not judged.", ref="4/C12"),
  "C14": dict(cat="exploration", tech="runtime monitor: FileSystem::remove() calls logged by a wrapping file system + whole-sandbox snapshots, plus a predicate band test",
              text="Histories of expectedOutputs/roots lists across processes: every removal must lie in (previous successful list minus current list) restricted by the roots (liberal reading) and every such path under the conservative reading must be gone; nothing else in the sandbox may change; pathIsPrefixedByPath is tested against a MUST/MUST-NOT band on generated pairs.",
              note="Doubled separators and dot components are judged for safety only.", ref="4/C14"),
  "C13": dict(cat="exploration", tech="runtime oracle over real file-system observations (ASan/UBSan build) + valgrind memcheck subset",
-             text="Generated (kind, size, mtime) x transition cases on a real ext4 directory, observed through the three FileSystem modes; oracle computed from raw stat/lstat and byte comparison; held on the cases listed in the evidence, nothing more.",
+             text="Generated (kind incl. symlinks, dangling links and FIFOs, size, mtime) x transition cases on a real ext4 directory, with a logical watchdog (no observation may block), observed through the three FileSystem modes; oracle computed from raw stat/lstat and byte comparison; held on the cases listed in the evidence, nothing more.",
              note="Trusts the kernel's stat(); explicit utimensat mtimes; directories are only compared empty.", ref="4/C13"),
 }
 PENDING = {}
